@@ -179,3 +179,66 @@ Fixpoint wire_agree (loss : option Q) (w : wire) (obs : list (waction * list wou
           && wire_agree loss w' rest
       end
   end.
+
+(* ---- the property's recurrence (specification side; executable) ----------------------------- *)
+(* What the trace of an execution says about arrivals, draws, deliveries, losses, dequeue instants. *)
+Definition arrivals (tr : list tev) : list (Q * pkt) :=
+  flat_map (fun e : tev => match e with (t, WPut p, _) => [(t, p)] | _ => [] end) tr.
+Definition draws (tr : list tev) : list (option Q * option Q) :=
+  flat_map (fun e : tev => match e with (_, WGet u d, _) => [(u, d)] | _ => [] end) tr.
+Definition tgets (tr : list tev) : list Q :=
+  flat_map (fun e : tev => match e with (t, WGet _ _, _) => [t] | _ => [] end) tr.
+Definition tdeliv (tr : list tev) : list (Q * pkt) :=
+  flat_map (fun e : tev => match e with
+            (t, _, outs) => flat_map (fun o => match o with ODeliver p => [(t, p)] | OLost _ => [] end) outs end) tr.
+Definition tlost (tr : list tev) : list (Q * pkt) :=
+  flat_map (fun e : tev => match e with
+            (t, _, outs) => flat_map (fun o => match o with OLost p => [(t, p)] | ODeliver _ => [] end) outs end) tr.
+
+Inductive fate := Lost | Deliv (T : Q).
+
+(* delivery instant of a kept packet dequeued at s that arrived at a and drew delay dd *)
+Definition deliver_at (s a dd : Q) : Q := if Qlt_le_dec (s - a) dd then a + dd else s.
+
+(* one packet: F = instant the server finished the previous packet, a = arrival, (u, d) = its draws.
+   Result: (dequeue instant s = max(a, F), fate).  None = the draws do not fit the configuration. *)
+Definition rec_step (loss : option Q) (F a : Q) (u d : option Q) : option (Q * fate) :=
+  let s := Qmax a F in
+  match lost_dec loss u, d with
+  | Some true, None => Some (s, Lost)
+  | Some false, Some dd => Some (s, Deliv (deliver_at s a dd))
+  | _, _ => None
+  end.
+
+Record outcome := { o_pkt : pkt; o_arr : Q; o_start : Q; o_fate : fate }.
+(* the instant the server is free again *)
+Definition o_fin (o : outcome) : Q := match o_fate o with Lost => o_start o | Deliv T => T end.
+Definition o_ap (o : outcome) : Q * pkt := (o_arr o, o_pkt o).
+
+(* F_0 = t0; packet k (k-th arrival, k-th pair of draws): s_k = max(a_k, F_{k-1}); lost => F_k = s_k;
+   kept => delivered at T_k = deliver_at s_k a_k d_k and F_k = T_k.  One outcome per pair of draws. *)
+Fixpoint wire_rec (loss : option Q) (F : Q) (arr : list (Q * pkt)) (dr : list (option Q * option Q))
+  {struct dr} : option (list outcome) :=
+  match dr, arr with
+  | [], _ => Some []
+  | _ :: _, [] => None
+  | (u, d) :: dr', (a, p) :: arr' =>
+      match rec_step loss F a u d with
+      | None => None
+      | Some (s, f) =>
+          let o := {| o_pkt := p; o_arr := a; o_start := s; o_fate := f |} in
+          match wire_rec loss (o_fin o) arr' dr' with
+          | Some R => Some (o :: R)
+          | None => None
+          end
+      end
+  end.
+
+Definition exp_deliv (R : list outcome) : list (Q * pkt) :=
+  flat_map (fun o => match o_fate o with Deliv T => [(T, o_pkt o)] | Lost => [] end) R.
+Definition exp_lost (R : list outcome) : list (Q * pkt) :=
+  flat_map (fun o => match o_fate o with Lost => [(o_start o, o_pkt o)] | Deliv _ => [] end) R.
+
+(* what the wire holds: the packet propagating and everything in the store (incl. a granted get) *)
+Definition wheld (w : wire) : list pkt :=
+  match hold w with Some (p, _) => [p] | None => [] end ++ map snd (sq_held (wq w)).
